@@ -95,12 +95,32 @@ def termfile_history(rng):
     return calls
 
 
+def label_history(rng):
+    """several sentences that use the SAME indexed labels and trace words, sent through steps that read and rewrite label
+    parts (trace deletion with and without kept indices and slash annotation, head rules, binarization)"""
+    calls = []
+    for _ in range(rng.randint(3, 6)):
+        t = trace_tree(rng)
+        r = rng.random()
+        if r < 0.6:
+            params = rng.choice([{}, {"keepall": True, "keepcoindex": True}, {"keepall": True, "slash": True}, {"keepcoindex": True},
+                                 {"keep": "*T*", "keepcoindex": True}])
+            calls.append({"op": "transform", "name": "ptb_delete_traces", "tree": proto.enc_tree(t), "sid": 1, "params": params})
+        elif r < 0.8:
+            calls.append({"op": "transform", "name": "mark_heads_by_rules", "tree": proto.enc_tree(t), "sid": 1, "params": {"mark_heads_preset": "ptb"}})
+        else:
+            calls.append({"op": "write", "fmt": "brackets", "tree": proto.enc_tree(t), "sid": 1, "opts": {"gf": True}})
+    return calls
+
+
 def mk_history(rng):
     r0 = rng.random()
     if r0 < 0.3:
         return grammar_history(rng)
     if r0 < 0.5:
         return termfile_history(rng)
+    if r0 < 0.65:
+        return label_history(rng)
     files = {"t1.txt": None, "t2.txt": None, "dup.txt": None}
     calls = []
     n = rng.randint(3, 7)
